@@ -259,6 +259,10 @@ type AckWrap struct {
 func (a *AckWrap) Insert(prefix string, pkt packet.Packet, deadline time.Time, cb ack.Callback) error {
 	err := a.real.Insert(prefix, pkt, deadline, cb)
 	if err == nil {
+		if _, inbound := pkt.(*packet.PubRec); inbound {
+			// an exchange started by the client: its identifier is in the client's number space
+			return nil
+		}
 		if m, ok := pkt.(interface{ GetMessageId() int32 }); ok {
 			a.mu.Lock()
 			a.deadlines[fmt.Sprintf("%s/%d", prefix, m.GetMessageId())] = deadline
